@@ -36,6 +36,10 @@ pub enum Body {
     },
     C19 { out: C19Outcome },
     C15 { out: serde_json::Value },
+    /// the job did not finish within the per-job time limit; the child was killed
+    Timeout { seconds: u64 },
+    /// not run: an earlier job of the same group (same scenario / entry and data) timed out
+    Skipped,
 }
 
 #[derive(Clone, Debug, Serialize, Deserialize)]
@@ -154,50 +158,108 @@ pub fn run_job(reg: &crate::scen::Registry, job: &Job) -> Body {
     }
 }
 
+pub fn job_timeout_s() -> u64 {
+    std::env::var("VERIF_JOB_TIMEOUT_S").ok().and_then(|s| s.parse().ok()).unwrap_or(45)
+}
+
+/// jobs that share data and code: when one does not terminate the others are not tried
+fn group_key(j: &Job) -> String {
+    match &j.kind {
+        JobKind::C20 { scenario, p, .. } => format!("C20|{scenario}|{}|{:?}", p.seed, p.size),
+        JobKind::C19 { entry, p, .. } => format!("C19|{entry}|{}|{:?}", p.seed, p.size),
+        JobKind::C15 { .. } => format!("C15|{}", j.id),
+    }
+}
+
+struct Child {
+    proc: std::process::Child,
+    cin: std::process::ChildStdin,
+    lines: std::sync::mpsc::Receiver<String>,
+}
+
+fn spawn_child(exe: &std::path::Path, c: usize) -> Child {
+    let mut proc = Command::new(exe)
+        .arg("worker")
+        .arg(c.to_string())
+        .arg(c.to_string())
+        .stdin(Stdio::piped())
+        .stdout(Stdio::piped())
+        .stderr(Stdio::inherit())
+        .spawn()
+        .unwrap_or_else(|e| harness_error(&format!("spawn worker: {e}")));
+    let cin = proc.stdin.take().unwrap();
+    let cout = BufReader::new(proc.stdout.take().unwrap());
+    let (tx, rx) = std::sync::mpsc::channel();
+    std::thread::spawn(move || {
+        for line in cout.lines() {
+            match line {
+                Ok(l) => {
+                    if tx.send(l).is_err() {
+                        break;
+                    }
+                }
+                Err(_) => break,
+            }
+        }
+    });
+    Child { proc, cin, lines: rx }
+}
+
 /// Run `jobs` on `n` child processes with a static assignment; results come back
-/// in job order.  A child that dies or returns garbage is a harness error.
+/// in job order.  A child that dies or returns garbage is a harness error; a job that
+/// exceeds the per-job time limit is recorded as `Body::Timeout` (the child is killed and
+/// replaced) and the remaining jobs of its group are skipped.
 pub fn run_jobs(jobs: &[Job], n: usize) -> Vec<JobResult> {
     let n = n.min(jobs.len()).max(1);
     let exe = std::env::current_exe().unwrap_or_else(|e| harness_error(&format!("current_exe: {e}")));
+    let hung: std::sync::Arc<std::sync::Mutex<std::collections::HashSet<String>>> = Default::default();
+    let limit = std::time::Duration::from_secs(job_timeout_s());
     let mut handles = Vec::new();
     for c in 0..n {
         let mine: Vec<Job> = jobs.iter().skip(c).step_by(n).cloned().collect();
         let exe = exe.clone();
+        let hung = hung.clone();
         handles.push(std::thread::spawn(move || -> Vec<JobResult> {
-            let mut child = Command::new(&exe)
-                .arg("worker")
-                .arg(c.to_string())
-                .arg(c.to_string())
-                .stdin(Stdio::piped())
-                .stdout(Stdio::piped())
-                .stderr(Stdio::inherit())
-                .spawn()
-                .unwrap_or_else(|e| harness_error(&format!("spawn worker: {e}")));
-            let mut cin = child.stdin.take().unwrap();
-            let mut cout = BufReader::new(child.stdout.take().unwrap());
+            let mut child = spawn_child(&exe, c);
             let mut out = Vec::with_capacity(mine.len());
+            let mut kth = 0usize;
             for j in &mine {
+                let key = group_key(j);
+                if hung.lock().unwrap().contains(&key) {
+                    out.push(JobResult { id: j.id, wall_ms: 0.0, kth_in_process: kth, child: c, body: Body::Skipped });
+                    continue;
+                }
                 let mut line = serde_json::to_string(j).unwrap();
                 line.push('\n');
-                if cin.write_all(line.as_bytes()).and_then(|_| cin.flush()).is_err() {
+                if child.cin.write_all(line.as_bytes()).and_then(|_| child.cin.flush()).is_err() {
                     harness_error(&format!("worker {c} closed its input (died) before job {}: {}", j.id, line.trim()));
                 }
-                let mut resp = String::new();
-                match cout.read_line(&mut resp) {
-                    Ok(0) | Err(_) => {
-                        let st = child.wait().ok();
+                match child.lines.recv_timeout(limit) {
+                    Ok(resp) => {
+                        let r: JobResult = serde_json::from_str(&resp).unwrap_or_else(|e| harness_error(&format!("worker {c}: bad result line ({e}): {resp}")));
+                        if r.id != j.id {
+                            harness_error("worker answered a different job");
+                        }
+                        out.push(r);
+                        kth += 1;
+                    }
+                    Err(std::sync::mpsc::RecvTimeoutError::Timeout) => {
+                        eprintln!("note: job exceeded {} s and was stopped (non-termination in the code under test?): {}", limit.as_secs(), line.trim());
+                        let _ = child.proc.kill();
+                        let _ = child.proc.wait();
+                        hung.lock().unwrap().insert(key);
+                        out.push(JobResult { id: j.id, wall_ms: limit.as_secs_f64() * 1e3, kth_in_process: kth, child: c, body: Body::Timeout { seconds: limit.as_secs() } });
+                        child = spawn_child(&exe, c);
+                        kth = 0;
+                    }
+                    Err(std::sync::mpsc::RecvTimeoutError::Disconnected) => {
+                        let st = child.proc.wait().ok();
                         harness_error(&format!("worker {c} died ({st:?}) while running job {}", line.trim()));
                     }
-                    Ok(_) => {}
                 }
-                let r: JobResult = serde_json::from_str(&resp).unwrap_or_else(|e| harness_error(&format!("worker {c}: bad result line ({e}): {resp}")));
-                if r.id != j.id {
-                    harness_error("worker answered a different job");
-                }
-                out.push(r);
             }
-            drop(cin);
-            let _ = child.wait();
+            drop(child.cin);
+            let _ = child.proc.wait();
             out
         }));
     }
@@ -252,15 +314,30 @@ pub fn run_jobs_fresh_each(jobs: &[Job], n: usize) -> Vec<JobResult> {
                     let mut cin = child.stdin.take().unwrap();
                     let _ = cin.write_all(line.as_bytes());
                 }
-                let mut resp = String::new();
-                let mut cout = BufReader::new(child.stdout.take().unwrap());
-                if cout.read_line(&mut resp).unwrap_or(0) == 0 {
-                    let st = child.wait().ok();
-                    harness_error(&format!("fresh worker died ({st:?}) on job {}", line.trim()));
+                let cout = BufReader::new(child.stdout.take().unwrap());
+                let (tx, rx) = std::sync::mpsc::channel();
+                std::thread::spawn(move || {
+                    let mut cout = cout;
+                    let mut resp = String::new();
+                    let n = cout.read_line(&mut resp).unwrap_or(0);
+                    let _ = tx.send((n, resp));
+                });
+                match rx.recv_timeout(std::time::Duration::from_secs(job_timeout_s())) {
+                    Ok((n, resp)) => {
+                        if n == 0 {
+                            let st = child.wait().ok();
+                            harness_error(&format!("fresh worker died ({st:?}) on job {}", line.trim()));
+                        }
+                        let _ = child.wait();
+                        let r: JobResult = serde_json::from_str(&resp).unwrap_or_else(|e| harness_error(&format!("fresh worker: bad result ({e}): {resp}")));
+                        out.push(r);
+                    }
+                    Err(_) => {
+                        let _ = child.kill();
+                        let _ = child.wait();
+                        out.push(JobResult { id: jobs[i].id, wall_ms: 0.0, kth_in_process: 0, child: c, body: Body::Timeout { seconds: job_timeout_s() } });
+                    }
                 }
-                let _ = child.wait();
-                let r: JobResult = serde_json::from_str(&resp).unwrap_or_else(|e| harness_error(&format!("fresh worker: bad result ({e}): {resp}")));
-                out.push(r);
                 i += n;
             }
             out
